@@ -111,6 +111,9 @@ type c20Case struct {
 	FailJ int
 	// HoldLock: deliver the signal while the harness holds the terminator's lock.
 	HoldLock bool
+	// NotifyGone: the supervisor's notification socket disappears after readiness
+	// was announced, so every later notification fails.
+	NotifyGone bool
 	// ErrKind: what the failing task's error wraps (a task may fail with an
 	// error from a private context or connection of its own).
 	ErrKind string
@@ -274,6 +277,11 @@ func c20Run(r *vlib.Run, c *c20Case, dir string) {
 		return
 	}
 	// stimulus
+	if c.NotifyGone {
+		pc.Close()
+		os.Remove(sock)
+		lg.add("notify socket gone")
+	}
 	sig := c20Sig(c.Sig)
 	failer := sts[c.FailJ]
 	fireFail := func() { lg.add("fail_trigger %s", failer.name); close(failer.trigger) }
@@ -428,7 +436,7 @@ func c20Run(r *vlib.Run, c *c20Case, dir string) {
 			r.Count("terminate_reads_after_cancel", 1)
 		}
 	}
-	if c.Stim == "signal" {
+	if c.Stim == "signal" && !c.NotifyGone {
 		if c20WaitFor(func() bool { return lg.has("notify STOPPING=1") }, 500*time.Millisecond) {
 			r.Count("stopping_announced", 1)
 		}
@@ -558,6 +566,10 @@ func TestVerifC20(t *testing.T) {
 		if c.Stim == "signal" {
 			c.Tasks[c.FailJ].Run = "block"
 			c.HoldLock = i%8 == 0
+		}
+		c.NotifyGone = i%7 == 3
+		if c.NotifyGone {
+			r.Count("cases_notify_socket_gone_after_ready", 1)
 		}
 		if !r.Mine(c.ID) {
 			continue
